@@ -812,6 +812,46 @@ def structural_guards_of(node, f):
         return []
 
 
+def r01k(ctx):
+    """"Set all the cells of the row" starts from an empty row.
+
+    On the plain grid `set_row_values(y, values)` is `grid[y] = list(values)`: whatever the row held before is gone, also to the right of a
+    shorter list.  Row.set_values / extend_cells write from column 0 on and leave alone what lies beyond the values they are given, so the
+    whole-row shortcuts of Table get that meaning only because they fill a *new* Row and push it with set_row.  Filling a copy of the
+    stored row instead (to keep its style, say) keeps the old cells beyond len(values).  Rule: in Table.set_row_values and
+    Table.set_row_cells the row handed to set_row is, on every definition that reaches the call, a freshly constructed Row.
+    """
+    from ..paths import cfg_of, node_of, reaching_defs
+    repo = ctx.repo
+    ctx.rule("R01k", "the whole-row setters of Table fill a freshly constructed Row, not a copy of the stored one", floor=2)
+    for q in ("Table.set_row_values", "Table.set_row_cells"):
+        f = repo.func(q)
+        cfg = cfg_of(f)
+        byid = {nd.id: nd for nd in cfg.nodes}
+        pushes = [x for x in walk_no_nested(f.node) if isinstance(x, ast.Call) and call_name(x) == "set_row" and is_self_attr(x.func)]
+        if not pushes:
+            raise AnalysisError(f"R01k: {q} no longer pushes a row with set_row")
+        for push in pushes:
+            arg = get_arg(push, 1, "row")
+            bad = None
+            if isinstance(arg, ast.Call) and call_name(arg) == "Row":
+                pass
+            elif isinstance(arg, ast.Name):
+                pn = node_of(cfg, push)
+                for d in reaching_defs(cfg, arg.id).get(pn.id, frozenset()):
+                    st = byid[d].stmt
+                    val = getattr(st, "value", None)
+                    if not (isinstance(st, (ast.Assign, ast.AnnAssign)) and isinstance(val, ast.Call) and isinstance(val.func, ast.Name) and val.func.id == "Row"):
+                        bad = st if st is not None else f.node
+            else:
+                bad = push
+            ctx.instance("R01k", f"{f.file}:{f.ident}", f"{norm(push, 40)}: a new Row", ok=bad is None, nontrivial=True, line=push.lineno)
+            if bad is not None:
+                ctx.report("R01k", f, bad, f"{f.name}: {norm(bad, 40)}",
+                           f"{f.ident} fills `{norm(bad, 50)}` instead of a new Row: Row.set_values / extend_cells leave the cells beyond the values they are given, so the old cells to "
+                           f"the right of a shorter list survive — the grid model replaces the whole row")
+
+
 def run(ctx):
     tom = run_tom(ctx.repo)
     r01a(ctx, tom)
@@ -823,6 +863,7 @@ def run(ctx):
     r01fgh(ctx)
     r01i(ctx)
     r01j(ctx)
+    r01k(ctx)
 
 
 from ..selftest import Seed, unparse_seed  # noqa: E402
@@ -831,6 +872,9 @@ _T = "src/odfdo/table.py"
 _R = "src/odfdo/row.py"
 _EC = "src/odfdo/element_cached.py"
 SEEDS = [
+    Seed("set_row_values fills a copy of the stored row", "fault", _T,
+         "        row = Row()  # needed if clones rows\n        row.set_values(values, style=style, cell_type=cell_type, currency=currency)\n        return self.set_row(y, row)  # needed if clones rows",
+         "        row = self.get_row(y)\n        row.repeated = None\n        row.set_values(values, style=style, cell_type=cell_type, currency=currency)\n        return self.set_row(y, row, clone=False)", "R01k"),
     Seed("set_value returns early for None beyond the edge", "fault", _T,
          "        self.set_cell(\n            coord,\n            Cell(",
          "        x0, y0 = self._translate_cell_coordinates(coord)\n        if value is None and style is None and (y0 >= self.height or x0 >= self.width):\n            return\n        self.set_cell(\n            coord,\n            Cell(", "R01j"),
